@@ -112,6 +112,7 @@ def handle (ws : List String) : String :=
   | ["tree", src, dump] => handleTree src dump
   | ["junk", _, _] => "total total -"
   | "early" :: rest => Early.handle rest
+  | ["earlyfn", expect, region, _, _] => Early.handle [expect, region, "-"]
   | "early2" :: rest => Early.handle2 rest
   | "resv" :: rest => Early.handleResv rest
   | "resvtok" :: rest => Early.handleResvTok rest
